@@ -23,7 +23,10 @@ for d in $SNAP/seeded/*/; do
     for c in $ALL; do
       [ $c = $prop ] && continue
       VERIF_REPO=/tmp/sv VERIF_EVIDENCE_DIR=/tmp/sv_evidence ./check $c quick > /tmp/rg_out.txt 2>&1
-      if [ $? -ne 0 ]; then others="$others $c[$(grep -E "^  rule" /tmp/rg_out.txt | sed 's/^  rule \([^:]*\):.*/\1/' | sort -u | tr '\n' ' ')]"; fi
+      if [ $? -ne 0 ]; then
+        rr=$(grep -E "^  rule" /tmp/rg_out.txt | sed 's/^  rule \([^:]*\):.*/\1/' | sort -u | tr '\n' ' ')
+        others="$others $c($rr)"
+      fi
     done
     if [ -n "$others" ]; then echo "SEED $id: not flagged by $prop; detected by$others"; else echo "SEED $id: MISSED by every check"; fi
   fi
